@@ -51,6 +51,29 @@ ANNOTATION_TYPE = [tuple]   # type used for the joint_degree annotation of the n
 EDGE_ORDER = [None]         # None = sorted (canonical); "reversed"; or an int seed for a shuffled insertion order
 
 
+REUSED_OBJECT = [False]     # True: the rewiring object first served another network (see run_rewire)
+
+
+def relabel_state(state, f):
+    """The same network with vertex v renamed f(v); f is called once per OCCURRENCE, so labels that are equal need
+    not be identical objects (as for any int outside CPython's small-int cache, e.g. vertex 1000)."""
+    nodes, edges = state
+    new_nodes = tuple(sorted((f(n), jd) for n, jd in nodes))
+    new_edges = []
+    for u, v, top, mid in edges:
+        a, b = f(u), f(v)
+        new_edges.append((a, b, top, mid) if a <= b else (b, a, top, mid))
+    return new_nodes, tuple(sorted(new_edges))
+
+
+def mirrored(state):
+    """Same vertex labels, but the network is attached to them in reverse order (label i gets the role of the
+    i-th label from the end): a different annotated network over the same vertex set."""
+    labels = [n for n, _ in state[0]]
+    m = dict(zip(labels, reversed(labels)))
+    return relabel_state(state, lambda v: m[v])
+
+
 def build_state_graph(state, cls):
     """Canonical construction of a state: sorted nodes, sorted edges."""
     N_ = NN()
@@ -284,6 +307,28 @@ def run_rewire(state, names, target, conv_limit, search_limit, registry, omit_li
         params[TN.CONVERGENCE_LIMIT] = conv_limit
     if search_limit is not None:
         params[TN.SEARCH_LIMIT] = search_limit
+    if REUSED_OBJECT[0]:
+        # history: one rewiring object first rewires ANOTHER annotated network over the same vertex labels (three
+        # single-swap calls under one fixed schedule), is then pointed at this network and target through its public
+        # setters, and only the second rewire() is explored
+        other = mirrored(state)
+        net0 = Network()
+        net0.G = build_state_graph(other, cls)
+        params0 = dict(params)
+        params0[TN.NETWORK] = net0
+        params0[TN.EJKS] = target_object(make_target(other, names, "uniform"), names)
+        params0[TN.CONVERGENCE_LIMIT] = 0
+        mc = MarkovChainMonteCarloRewiring(params0)
+        with engine.scripted_prefix():
+            for _ in range(3):   # rewire() leaves its input alone, so each call is one accepted swap of `other`
+                mc.rewire()
+        del registry.copies[:]
+        mc.network = net
+        mc.ejks = params[TN.EJKS]
+        if conv_limit is not None:
+            mc.convergence_limit = conv_limit
+        out = mc.rewire()
+        return net, out
     mc = MarkovChainMonteCarloRewiring(params)
     out = mc.rewire()
     return net, out
